@@ -20,10 +20,19 @@ type SetMetadataOperation[SnapT Snapshot] struct {
 }
 
 func NewSetMetadataOp[SnapT Snapshot](opType OperationType, author identity.Interface, unixTime int64, target entity.Id, newMetadata map[string]string) *SetMetadataOperation[SnapT] {
+	// the operation keeps its own copy: its id is the hash of its content, which must not
+	// change when the caller reuses its map
+	var copied map[string]string
+	if newMetadata != nil {
+		copied = make(map[string]string, len(newMetadata))
+		for key, val := range newMetadata {
+			copied[key] = val
+		}
+	}
 	return &SetMetadataOperation[SnapT]{
 		OpBase:      NewOpBase(opType, author, unixTime),
 		Target:      target,
-		NewMetadata: newMetadata,
+		NewMetadata: copied,
 	}
 }
 
